@@ -18,6 +18,8 @@ DEREF_SINKS = {
     "__xpg_basename": [0], "basename": [0], "dirname": [0], "fopen": [0, 1], "lstat": [0], "stat": [0], "realpath": [0], "scandir": [0],
     "fputs": [0], "puts": [0], "strsep": [0],
 }
+# routines for which NULL is the ordinary answer ("no further token", "not found")
+NULL_ANSWERS = ("strsep", "strtok_r", "strtok", "strchr", "strrchr", "strstr", "strpbrk", "memchr", "strcasestr", "getenv", "secure_getenv", "fgets")
 PRINTF = {"printf": 0, "fprintf": 1, "sprintf": 1, "snprintf": 2, "asprintf": 1, "dprintf": 1}
 
 
@@ -154,6 +156,50 @@ def analyse(prog, functions):
                     # guard: non-NULL test of the local after the assignment, or of the field before it
                     def guard(lit, b, i, v=v, acc=acc):
                         return lit is not None and lit.kind == "truth" and lit.pol and lit.atom in (v, acc)
-                    wp = cfg.feasible_reach(cfg.block_of(u), guard, lambda a, v=v, acc=acc: a in (v, acc))
+                    # the field was tested before it was copied into the local (the copy sits inside `if (x->f != NULL ..)`): then the
+                    # local is non-NULL wherever this definition reaches; otherwise a test must lie between the copy and the use
+                    okd, cutd = cfg.all_paths_cut(cfg.block_of(st), lambda lit, b, i, acc=acc: lit is not None and lit.kind == "truth" and lit.pol and lit.atom == acc)
+                    if okd and cutd:
+                        wp = None
+                    else:
+                        pos = cfg.index_of(st)
+                        sb_, si_ = (pos if isinstance(pos, tuple) else (cfg.block_of(st), 0))
+                        wp = cfg.feasible_reach(cfg.block_of(u), guard, lambda a, v=v, acc=acc: a in (v, acc), start=sb_, start_index=si_ + 1) if sb_ is not None else \
+                            cfg.feasible_reach(cfg.block_of(u), guard, lambda a, v=v, acc=acc: a in (v, acc))
                     out.append(NullUse(f, u, acc, s, wp is None, cfg.describe_path(wp)[-6:] if wp else [], via=v))
+        # locals that receive the result of a routine for which NULL is the ordinary "no more / not found" answer
+        for lhs, rhs, st in f.assignments():
+            if rhs is None:
+                continue
+            r = rhs.strip()
+            while r.k in ("ImplicitCastExpr", "ParenExpr", "CStyleCastExpr") and r.children:
+                r = r.children[0].strip()
+            if not (r.k == "CallExpr" and r.j.get("callee") in NULL_ANSWERS):
+                continue
+            v = lhs["name"] if isinstance(lhs, dict) else (lhs.strip().j.get("name") if lhs.strip().k == "DeclRefExpr" else None)
+            if v is None:
+                continue
+            acc = "%s(...)" % r.j["callee"]
+            rd = rd or ReachingDefs(f)
+            sb = cfg.block_of(st)
+            si = cfg.index_of(st)
+            if sb is None or si is None:
+                continue
+            for u in f.walk():
+                if u.k == "DeclRefExpr" and u.j.get("name") == v and u.j.get("dk") in ("local", "param"):
+                    s2 = sink_of(u, prog, repo_sinks)
+                    if s2 is None:
+                        continue
+                    defs = rd.reaching(v, u)
+                    if not any(d.node is st for d in defs):
+                        continue
+
+                    def guard(lit, b, i, v=v):
+                        return lit is not None and lit.kind == "truth" and lit.pol and lit.atom == v
+                    # implied by the assignment being the loop / if condition itself: (v = f(..)) != NULL
+                    wp = cfg.feasible_reach(cfg.block_of(u), lambda lit, b, i, v=v: guard(lit, b, i) or (
+                        lit is not None and lit.pol and lit.kind == "truth" and lit.node is not None and lit.node.k == "BinaryOperator"
+                        and lit.node.j.get("op") == "=" and render(lit.node.children[0]) == v), lambda a, v=v: a == v,
+                        start=sb, start_index=(si[1] if isinstance(si, tuple) else si) + 1)
+                    out.append(NullUse(f, u, acc, s2, wp is None, cfg.describe_path(wp)[-6:] if wp else [], via=v))
     return nf, out
